@@ -73,17 +73,17 @@ Proof. intros pos st Hp H. rewrite assert_nz_sfx by assumption. rewrite H. refle
 Lemma isdig_eq : forall c, is_digit c = isdig c. Proof. reflexivity. Qed.
 
 Lemma set_flag_isflag : forall c o,
-  (isflag c = true -> exists o', set_flag c o = Some o' /\ arg_pos o' = arg_pos o)
+  (isflag c = true -> exists o', set_flag c o = Some o' /\ arg_pos o' = arg_pos o /\ precision o' = precision o)
   /\ (isflag c = false -> set_flag c o = None).
 Proof.
   intros c o. destruct o as [cv mw ap da pr lj asg pbs alt fz gt uc]. unfold isflag, set_flag. split.
   - intros H.
-    destruct (N.eqb c 45); [eexists; split; reflexivity|].
-    destruct (N.eqb c 43); [eexists; split; reflexivity|].
-    destruct (N.eqb c 32); [eexists; split; reflexivity|].
-    destruct (N.eqb c 35); [eexists; split; reflexivity|].
-    destruct (N.eqb c 48); [eexists; split; reflexivity|].
-    destruct (N.eqb c 39); [eexists; split; reflexivity|]. discriminate.
+    destruct (N.eqb c 45); [eexists; repeat split; reflexivity|].
+    destruct (N.eqb c 43); [eexists; repeat split; reflexivity|].
+    destruct (N.eqb c 32); [eexists; repeat split; reflexivity|].
+    destruct (N.eqb c 35); [eexists; repeat split; reflexivity|].
+    destruct (N.eqb c 48); [eexists; repeat split; reflexivity|].
+    destruct (N.eqb c 39); [eexists; repeat split; reflexivity|]. discriminate.
   - intros H. destruct (N.eqb c 45), (N.eqb c 43), (N.eqb c 32), (N.eqb c 35), (N.eqb c 48), (N.eqb c 39); try discriminate. reflexivity.
 Qed.
 
@@ -94,6 +94,7 @@ Lemma flags_loop_sim : forall fuel pos opts dollar st,
   | Some (ap, l') => exists pos' opts' d',
       flags_loop s fuel pos opts dollar st = (st, Ok (pos', opts', d'))
       /\ (pos <= pos' < length s)%nat /\ sfx pos' = l' /\ arg_pos opts' = ap /\ opts_ok opts'
+      /\ precision opts' = precision opts
   end.
 Proof.
   induction fuel as [|fuel IH]; intros pos opts dollar st Hp Hf Ho; [lia|].
@@ -119,13 +120,14 @@ Proof.
         assert (Hap : arg_pos (set_arg_pos (Z.of_N c - 48 - 1) opts) = Z.of_N c - 48 - 1) by (destruct opts; reflexivity).
         rewrite Hap in IH.
         destruct (sk_flags (sfx (pos + 2)) (Z.of_N c - 48 - 1)) as [[ap l']|].
-        -- destruct IH as [pos' [opts' [d' [Hrun [Hpp [Hl [Ha Hok]]]]]]].
-           exists pos', opts', d'. rewrite Hrun. split; [reflexivity | split; [lia | split; [assumption | split; assumption]]].
+        -- destruct IH as [pos' [opts' [d' [Hrun [Hpp [Hl [Ha [Hok Hpr]]]]]]]].
+           exists pos', opts', d'. rewrite Hrun. split; [reflexivity | split; [lia | split; [assumption | split; [assumption | split; [assumption|]]]]].
+           rewrite Hpr. destruct opts; reflexivity.
         -- exact IH.
     + (* a digit that is not followed by '$': '0' is a flag, the others end the flags *)
       destruct (set_flag_isflag c opts) as [Hyes Hno].
       destruct (isflag c) eqn:Ef.
-      * destruct (Hyes eq_refl) as [o' [Hsf Hap]]. rewrite Hsf.
+      * destruct (Hyes eq_refl) as [o' [Hsf [Hap Hprc]]]. rewrite Hsf.
         cbv iota beta.
         destruct (N.eqb (hd0 (sfx (pos + 1))) 0) eqn:E0.
         -- eexists. erewrite mbind_stop by (apply assert_nz_stop; [lia | assumption]). reflexivity.
@@ -134,16 +136,16 @@ Proof.
            specialize (IH (pos + 1)%nat o' dollar st Hp1 ltac:(lia) (set_flag_ok c opts o' Hsf Ho)).
            rewrite Hap in IH.
            destruct (sk_flags (sfx (pos + 1)) (arg_pos opts)) as [[ap l']|].
-           ++ destruct IH as [pos' [opts' [d' [Hrun [Hpp [Hl [Ha Hok]]]]]]].
-              exists pos', opts', d'. rewrite Hrun. split; [reflexivity | split; [lia | split; [assumption | split; assumption]]].
+           ++ destruct IH as [pos' [opts' [d' [Hrun [Hpp [Hl [Ha [Hok Hpr]]]]]]]].
+              exists pos', opts', d'. rewrite Hrun. split; [reflexivity | split; [lia | split; [assumption | split; [assumption | split; [assumption | congruence]]]]].
            ++ exact IH.
       * rewrite (Hno eq_refl). exists pos, opts, dollar. unfold ret.
-        split; [reflexivity | split; [lia | split; [assumption | split; [reflexivity | assumption]]]].
+        split; [reflexivity | split; [lia | split; [assumption | split; [reflexivity | split; [assumption | reflexivity]]]]].
   - (* not a digit *)
     erewrite mbind_ok by reflexivity.
     destruct (set_flag_isflag c opts) as [Hyes Hno].
     destruct (isflag c) eqn:Ef.
-    + destruct (Hyes eq_refl) as [o' [Hsf Hap]]. rewrite Hsf.
+    + destruct (Hyes eq_refl) as [o' [Hsf [Hap Hprc]]]. rewrite Hsf.
       cbv iota beta.
       destruct (N.eqb (hd0 (sfx (pos + 1))) 0) eqn:E0.
       * eexists. erewrite mbind_stop by (apply assert_nz_stop; [lia | assumption]). reflexivity.
@@ -152,11 +154,11 @@ Proof.
         specialize (IH (pos + 1)%nat o' dollar st Hp1 ltac:(lia) (set_flag_ok c opts o' Hsf Ho)).
         rewrite Hap in IH.
         destruct (sk_flags (sfx (pos + 1)) (arg_pos opts)) as [[ap l']|].
-        -- destruct IH as [pos' [opts' [d' [Hrun [Hpp [Hl [Ha Hok]]]]]]].
-           exists pos', opts', d'. rewrite Hrun. split; [reflexivity | split; [lia | split; [assumption | split; assumption]]].
+        -- destruct IH as [pos' [opts' [d' [Hrun [Hpp [Hl [Ha [Hok Hpr]]]]]]]].
+           exists pos', opts', d'. rewrite Hrun. split; [reflexivity | split; [lia | split; [assumption | split; [assumption | split; [assumption | congruence]]]]].
         -- exact IH.
     + rewrite (Hno eq_refl). exists pos, opts, dollar. unfold ret.
-      split; [reflexivity | split; [lia | split; [assumption | split; [reflexivity | assumption]]]].
+      split; [reflexivity | split; [lia | split; [assumption | split; [reflexivity | split; [assumption | reflexivity]]]]].
 Qed.
 
 
@@ -164,9 +166,9 @@ Lemma number_loop_sim : forall fuel msg pos w st,
   (pos < length s)%nat -> (length s - pos < fuel)%nat -> 0 <= w <= INT_MAX ->
   match sk_number (sfx pos) w with
   | None => exists m, number_loop s fuel msg pos w st = (st, AssertStop m)
-  | Some l' => exists pos' w',
-      number_loop s fuel msg pos w st = (st, Ok (pos', w'))
-      /\ (pos <= pos' < length s)%nat /\ sfx pos' = l' /\ 0 <= w' <= INT_MAX
+  | Some (v, l') => exists pos',
+      number_loop s fuel msg pos w st = (st, Ok (pos', v))
+      /\ (pos <= pos' < length s)%nat /\ sfx pos' = l' /\ 0 <= v <= INT_MAX
   end.
 Proof.
   induction fuel as [|fuel IH]; intros msg pos w st Hp Hf Hw; [lia|].
@@ -187,12 +189,12 @@ Proof.
       * assert (Hp1 : (pos + 1 < length s)%nat) by (apply sfx_nonnil; intro H0; rewrite H0 in E0; discriminate).
         erewrite mbind_ok by (apply assert_nz_ok; [lia | assumption]).
         specialize (IH msg (pos + 1)%nat (w * 10 + (Z.of_N c - 48)) st Hp1 ltac:(lia) ltac:(lia)).
-        destruct (sk_number (sfx (pos + 1)) (w * 10 + (Z.of_N c - 48))) as [l'|].
-        -- destruct IH as [pos' [w' [Hrun [Hpp [Hl Hw']]]]].
-           exists pos', w'. rewrite Hrun. split; [reflexivity | split; [lia | split; assumption]].
+        destruct (sk_number (sfx (pos + 1)) (w * 10 + (Z.of_N c - 48))) as [[v l']|].
+        -- destruct IH as [pos' [Hrun [Hpp [Hl Hw']]]].
+           exists pos'. rewrite Hrun. split; [reflexivity | split; [lia | split; assumption]].
         -- exact IH.
     + cbn [massert]. eexists. unfold mbind, fail_assert. reflexivity.
-  - exists pos, w. unfold ret. split; [reflexivity | split; [lia | split; [exact Hc | assumption]]].
+  - exists pos. unfold ret. split; [reflexivity | split; [lia | split; [exact Hc | assumption]]].
 Qed.
 
 Definition lmod_szmod (m : lmod) : printf_size_mod :=
@@ -296,20 +298,34 @@ Qed.
 Variable mem : memory.
 
 Definition kind_va (k : argkind) : argty :=
-  match k with KInt => ATInt | KLong => ATLong | KLLong => ATLLong | KPtr | KStr => ATPtr end.
+  match k with KInt => ATInt | KLong => ATLong | KLLong => ATLLong | KPtr | KStr _ => ATPtr end.
 
-(* hypotheses on the argument list: a %s argument is null or points to a NUL-terminated string *)
-Definition str_valid (v : Z) : Prop :=
-  v = 0 \/ exists buf, mem_lookup mem (Z.to_N v) = Some buf /\ has_nul_within buf None = true.
-Definition arg_ok (k : argkind) (raw : N) : Prop := k = KStr -> str_valid (interp t_ptr raw).
-Definition args_ok (ks : list argkind) (rest : list N) : Prop :=
-  (length ks <= length rest)%nat /\ forall j, (j < length ks)%nat -> arg_ok (nth j ks KInt) (nth j rest 0%N).
+(* the number of bytes a %s may read: [prev] is the argument fetched just before the string *)
+Definition limit_of (lim : slimit) (prev : N) : option nat :=
+  match lim with
+  | SNone => None
+  | SLit n => Some n
+  | SStar => let p := interp t_int prev in if p <? 0 then None else Some (Z.to_nat p)
+  end.
 
-(* state invariant: the cache holds the positions named so far; cells named as strings hold valid strings *)
+(* hypotheses on the argument list: a %s argument is a null pointer, or points to a buffer that contains a NUL
+   within the precision or has at least `precision` bytes (IsoPrintf.has_nul_within: exactly what ISO C asks of
+   the argument of %.Ns); without a precision the buffer must contain a NUL *)
+Definition str_valid (lim : option nat) (v : Z) : Prop :=
+  v = 0 \/ exists buf, mem_lookup mem (Z.to_N v) = Some buf /\ has_nul_within buf lim = true.
+Definition arg_ok (prev : N) (k : argkind) (raw : N) : Prop :=
+  forall lim, k = KStr lim -> str_valid (limit_of lim prev) (interp t_ptr raw).
+Definition args_ok (prev0 : N) (ks : list argkind) (rest : list N) : Prop :=
+  (length ks <= length rest)%nat
+  /\ forall j, (j < length ks)%nat ->
+       arg_ok (match j with O => prev0 | S j' => nth j' rest 0%N end) (nth j ks KInt) (nth j rest 0%N).
+
+(* state invariant: the cache holds the positions named so far; cells named as (terminated) strings hold them *)
 Definition inv (st : pstate) (ck : list argkind) : Prop :=
   (9 <= length (arg_list (ps_vs st)))%nat
   /\ num_args (ps_vs st) = Z.of_nat (length ck) /\ (length ck <= 9)%nat
-  /\ forall i, (i < length ck)%nat -> nth i ck KInt = KStr -> str_valid (interp t_ptr (nth i (arg_list (ps_vs st)) 0%N)).
+  /\ forall i, (i < length ck)%nat -> nth i ck KInt = KStr SNone ->
+       str_valid None (interp t_ptr (nth i (arg_list (ps_vs st)) 0%N)).
 
 Definition is_prefix (a b : list argkind) : Prop := exists c, b = a ++ c.
 
@@ -330,14 +346,31 @@ Proof. intros A l. induction l as [|x r IH]; intros n j d; destruct n; cbn [skip
 Lemma skipn_add : forall (A : Type) (l : list A) a b, skipn b (skipn a l) = skipn (a + b) l.
 Proof. intros A l. induction l as [|x r IH]; intros a b; destruct a; cbn [skipn plus]; try reflexivity; [destruct b; reflexivity | apply IH]. Qed.
 
-Lemma args_ok_app : forall k1 k2 rest, args_ok (k1 ++ k2) rest ->
-  args_ok k1 rest /\ args_ok k2 (skipn (length k1) rest).
+Definition last_prev (prev0 : N) (n : nat) (rest : list N) : N :=
+  match n with O => prev0 | S n' => nth n' rest 0%N end.
+
+Lemma args_ok_app : forall p k1 k2 rest, args_ok p (k1 ++ k2) rest ->
+  args_ok p k1 rest /\ args_ok (last_prev p (length k1) rest) k2 (skipn (length k1) rest).
 Proof.
-  intros k1 k2 rest [Hl Ha]. rewrite app_length in Hl. split.
+  intros p k1 k2 rest [Hl Ha]. rewrite app_length in Hl. split.
   - split; [lia|]. intros j Hj. specialize (Ha j ltac:(rewrite app_length; lia)). rewrite app_nth1 in Ha by assumption. exact Ha.
   - split; [rewrite skipn_length; lia|]. intros j Hj.
     specialize (Ha (length k1 + j)%nat ltac:(rewrite app_length; lia)).
-    rewrite app_nth2_plus in Ha. rewrite nth_skipn_plus. exact Ha.
+    rewrite app_nth2_plus in Ha. rewrite nth_skipn_plus.
+    destruct j as [|j'].
+    + rewrite Nat.add_0_r in *. unfold last_prev. exact Ha.
+    + replace (length k1 + S j')%nat with (S (length k1 + j')) in * by lia.
+      rewrite nth_skipn_plus. exact Ha.
+Qed.
+
+(* the previous argument only matters for a string whose precision is ".*" *)
+Lemma args_ok_prev : forall p p' ks rest,
+  (forall lim, nth 0 ks KInt = KStr lim -> lim <> SStar) -> args_ok p ks rest -> args_ok p' ks rest.
+Proof.
+  intros p p' ks rest Hns [Hl Ha]. split; [assumption|]. intros j Hj. specialize (Ha j Hj).
+  destruct j as [|j']; [|exact Ha].
+  intros lim Hk. specialize (Ha lim Hk). specialize (Hns lim Hk).
+  destruct lim; try congruence; exact Ha.
 Qed.
 
 Lemma is_prefix_app_r : forall a b c, is_prefix a b -> is_prefix a (b ++ c).
@@ -432,19 +465,26 @@ Lemma map_repeat' : forall (A B : Type) (f : A -> B) x n, map f (repeat x n) = r
 Proof. intros. induction n; cbn; [reflexivity | f_equal; assumption]. Qed.
 
 Lemma kind_eqb_eq : forall a b, kind_eqb a b = true -> a = b.
-Proof. intros a b H; destruct a, b; try discriminate; reflexivity. Qed.
+Proof.
+  intros a b H; destruct a as [| | | |l1], b as [| | | |l2]; try discriminate; try reflexivity.
+  cbn in H. destruct l1, l2; try discriminate; try reflexivity. apply Nat.eqb_eq in H. subst. reflexivity.
+Qed.
 
 Lemma nth_error_nth_N : forall (l : list N) i, (i < length l)%nat -> nth_error l i = Some (nth i l 0%N).
 Proof. intros l i H. apply nth_error_nth'. assumption. Qed.
 
-(* pop_arg<T> names the arguments [fetch] says, and returns a valid string pointer when asked for a string *)
-Lemma pop_arg_sim : forall ct k opts st ck ks ck',
-  ctype_ok ct -> ct_va ct = kind_va k -> (k = KStr -> ct = t_ptr) ->
+(* pop_arg<T> names the arguments [fetch] says; asked for a string it returns a pointer that may be read up to the
+   limit (sequential fetch), resp. to a terminated string (positional fetch) *)
+Lemma pop_arg_sim : forall ct k opts st ck ks ck' prev0,
+  ctype_ok ct -> ct_va ct = kind_va k -> (forall lim, k = KStr lim -> ct = t_ptr) ->
   inv st ck -> opts_ok opts ->
-  fetch k (arg_pos opts) ck = Some (ks, ck') -> args_ok ks (va_rest (ps_vs st)) ->
-  osim st ks ck' (pop_arg ct opts st) (fun v => - 2 ^ 63 <= v < 2 ^ 64 /\ (k = KStr -> str_valid v)).
+  fetch k (arg_pos opts) ck = Some (ks, ck') -> args_ok prev0 ks (va_rest (ps_vs st)) ->
+  osim st ks ck' (pop_arg ct opts st)
+       (fun v => - 2 ^ 63 <= v < 2 ^ 64
+                 /\ (forall lim, k = KStr lim -> (arg_pos opts = -1 \/ lim = SNone) -> str_valid (limit_of lim prev0) v)
+                 /\ (arg_pos opts = -1 -> v = interp ct (hd 0%N (va_rest (ps_vs st))))).
 Proof.
-  intros ct k opts st ck ks ck' Hct Hva Hstr Hinv [Hap [Hd Hw]] Hf Hargs.
+  intros ct k opts st ck ks ck' prev0 Hct Hva Hstr Hinv [Hap [Hd Hw]] Hf Hargs.
   destruct Hinv as [Hcl [Hna [Hck9 Hcells]]].
   destruct st as [o [vr vp al na]]. cbn [ps_vs ps_out va_rest va_pops arg_list num_args] in *.
   unfold fetch in Hf. unfold pop_arg.
@@ -455,8 +495,8 @@ Proof.
     destruct vr as [|raw vr]; [cbn in Hl; lia|].
     unfold pop_va. cbn [ps_vs va_rest ps_out va_pops arg_list num_args osim log map length skipn].
     split; [repeat split; assumption|]. split; [rewrite Hva; reflexivity|]. split; [reflexivity|].
-    split; [apply interp_range; assumption|].
-    intros Hk. specialize (Ha 0%nat ltac:(cbn; lia)). cbn [nth] in Ha. rewrite (Hstr Hk). apply Ha. assumption.
+    split; [apply interp_range; assumption|]. split; [|intros _; reflexivity].
+    intros lim Hk _. specialize (Ha 0%nat ltac:(cbn; lia)). cbn [nth] in Ha. rewrite (Hstr lim Hk). apply Ha. assumption.
   - destruct Hd as [Hd | Hd]; [lia|]. rewrite Hd.
     erewrite mbind_ok by reflexivity. cbn [ps_vs num_args].
     destruct (arg_pos opts <? Z.of_nat (length ck)) eqn:E2.
@@ -471,8 +511,8 @@ Proof.
       cbn [ps_vs arg_list]. rewrite nth_error_nth_N by lia.
       cbn [osim log ps_vs va_pops va_rest map length skipn]. rewrite app_nil_r.
       split; [repeat split; assumption|]. split; [reflexivity|]. split; [reflexivity|].
-      split; [apply interp_range; assumption|].
-      intros Hk. rewrite (Hstr Hk). apply Hcells; [lia | congruence].
+      split; [apply interp_range; assumption|]. split; [|intros; lia].
+      intros lim Hk [Hm1 | Hsn]; [lia|]. subst lim. cbn [limit_of]. rewrite (Hstr SNone Hk). apply Hcells; [lia | congruence].
     + (* new positions: fetched from the va_list into the cache *)
       inversion Hf; subst ks ck'. clear Hf.
       set (n := Z.to_nat (arg_pos opts + 1 - Z.of_nat (length ck))) in *.
@@ -504,14 +544,14 @@ Proof.
           rewrite nth_repeat_lt in Hki by lia.
           destruct (Hnew (i - length ck)%nat ltac:(lia)) as [old' Hold'].
           replace (Z.to_nat na + (i - length ck))%nat with i in Hold' by lia.
-          rewrite Hold'. rewrite (Hstr Hki). rewrite interp_cell_write by (unfold ctype_ok; cbn; lia).
-          rewrite <- (Hstr Hki).
+          rewrite Hold'. rewrite (Hstr SNone Hki). rewrite interp_cell_write by (unfold ctype_ok; cbn; lia).
           specialize (Ha (i - length ck)%nat ltac:(lia)). rewrite nth_repeat_lt in Ha by lia.
-          rewrite (Hstr Hki). apply Ha. assumption. }
+          exact (Ha SNone Hki). }
       split; [rewrite map_repeat'; rewrite Hva; reflexivity|]. split; [reflexivity|].
-      split; [apply interp_range; assumption|].
-      intros Hk. specialize (Ha (n - 1)%nat ltac:(lia)). rewrite nth_repeat_lt in Ha by lia.
-      rewrite (Hstr Hk). apply Ha. assumption.
+      split; [apply interp_range; assumption|]. split; [|intros; lia].
+      intros lim Hk [Hm1 | Hsn]; [lia|]. subst lim.
+      specialize (Ha (n - 1)%nat ltac:(lia)). rewrite nth_repeat_lt in Ha by lia.
+      rewrite (Hstr SNone Hk). exact (Ha SNone Hk).
 Qed.
 
 (* ---- small osim rules *)
@@ -581,57 +621,102 @@ Proof.
       destruct (IH None H) as [o Ho]. rewrite Ho. eexists; reflexivity.
 Qed.
 
-Lemma osim_printf_string : forall opts st ck ks ck',
-  inv st ck -> opts_ok opts -> fetch KStr (arg_pos opts) ck = Some (ks, ck') -> args_ok ks (va_rest (ps_vs st)) ->
+(* the precision the parser left in opts, seen from the scanner: [pv] is the argument ".*" fetched *)
+Definition prec_rel (lim : slimit) (pv : N) (po : option Z) : Prop :=
+  match lim with
+  | SNone => po = None
+  | SLit n => po = Some (Z.of_nat n)
+  | SStar => po = (let p := interp t_int pv in if 0 <=? p then Some p else None)
+  end.
+
+Lemma prec_rel_limit : forall lim pv po, prec_rel lim pv po ->
+  match po with Some pr => if pr <? 0 then None else Some (Z.to_nat pr) | None => None end = limit_of lim pv.
+Proof.
+  intros lim pv po H. destruct lim; cbn [prec_rel limit_of] in *; subst po.
+  - reflexivity.
+  - replace (Z.of_nat n <? 0) with false by lia. rewrite Nat2Z.id. reflexivity.
+  - cbv zeta. destruct (0 <=? interp t_int pv) eqn:E.
+    + replace (interp t_int pv <? 0) with false by lia. reflexivity.
+    + replace (interp t_int pv <? 0) with true by lia. reflexivity.
+Qed.
+
+Lemma osim_printf_string : forall opts st ck ks ck' lim pv,
+  inv st ck -> opts_ok opts ->
+  (arg_pos opts = -1 -> prec_rel lim pv (precision opts)) ->
+  fetch (KStr (if arg_pos opts =? -1 then lim else SNone)) (arg_pos opts) ck = Some (ks, ck') ->
+  args_ok pv ks (va_rest (ps_vs st)) ->
   osim st ks ck' (printf_string mem opts st) (fun _ => True).
 Proof.
-  intros opts st ck ks ck' Hinv Ho Hf Hargs. unfold printf_string.
+  intros opts st ck ks ck' lim pv Hinv Ho Hpr Hf Hargs. unfold printf_string.
+  set (L := match precision opts with Some pr => if pr <? 0 then None else Some (Z.to_nat pr) | None => None end).
   eapply osim_bind_r.
-  { apply (pop_arg_sim t_ptr KStr opts st ck ks ck'); try assumption; try reflexivity. unfold ctype_ok; cbn; lia. }
-  intros p st1 Hinv1 [Hrange Hsv]. cbv beta. specialize (Hsv eq_refl).
-  (* the buffer *)
+  { apply (pop_arg_sim t_ptr (KStr (if arg_pos opts =? -1 then lim else SNone)) opts st ck ks ck' pv); try assumption; try reflexivity.
+    unfold ctype_ok; cbn; lia. }
+  intros p st1 Hinv1 [Hrange [Hsv _]]. cbv beta.
+  (* the pointer may be read up to the parser's limit L *)
+  assert (HsvL : str_valid L p).
+  { destruct (arg_pos opts =? -1) eqn:E1.
+    - assert (Hm1 : arg_pos opts = -1) by (apply Z.eqb_eq; exact E1).
+      specialize (Hsv lim eq_refl (or_introl Hm1)).
+      subst L. rewrite (prec_rel_limit lim pv (precision opts) (Hpr Hm1)). exact Hsv.
+    - specialize (Hsv SNone eq_refl (or_intror eq_refl)). cbn [limit_of] in Hsv.
+      destruct Hsv as [H0 | [buf [Hm Hn]]]; [left; assumption|].
+      right. exists buf. split; [assumption | apply has_nul_within_any; assumption]. }
   assert (Hbuf : exists buf, (if p =? 0 then ret null_string
                               else match mem_lookup mem (Z.to_N p) with
                                    | Some b => ret b
                                    | None => fail_ub "string argument is not a valid pointer"
-                                   end) st1 = (st1, Ok buf) /\ has_nul_within buf None = true).
-  { destruct Hsv as [-> | [buf [Hm Hn]]].
-    - exists null_string. split; reflexivity.
-    - destruct (p =? 0); [exists null_string; split; reflexivity|]. rewrite Hm. exists buf. split; [reflexivity | assumption]. }
+                                   end) st1 = (st1, Ok buf) /\ has_nul_within buf L = true).
+  { destruct HsvL as [-> | [buf [Hm Hn]]].
+    - exists null_string. split; [reflexivity | apply has_nul_within_any; reflexivity].
+    - destruct (p =? 0); [exists null_string; split; [reflexivity | apply has_nul_within_any; reflexivity]|].
+      rewrite Hm. exists buf. split; [reflexivity | assumption]. }
   destruct Hbuf as [buf [Hbuf Hnul]].
   erewrite mbind_ok by (exact Hbuf).
-  set (lim := match precision opts with Some pr => if pr <? 0 then None else Some (Z.to_nat pr) | None => None end).
   assert (Hlen : (match precision opts with
                   | Some pr => c_strnlen buf (if pr <? 0 then None else Some (Z.to_nat pr)) 0
                   | None => c_strnlen buf None 0
-                  end) = Ok (0 + Z.of_nat (length (take_str buf lim)))).
-  { subst lim. destruct (precision opts) as [pr|]; apply strnlen_ok; apply has_nul_within_any; assumption. }
+                  end) = Ok (0 + Z.of_nat (length (take_str buf L)))).
+  { subst L. destruct (precision opts) as [pr|]; apply strnlen_ok; assumption. }
   rewrite Hlen. erewrite mbind_ok by reflexivity.
   rewrite Z.add_0_l, Nat2Z.id.
-  destruct (copy_chars_ok buf lim (has_nul_within_any buf lim Hnul)) as [o Hcp]. rewrite Hcp.
+  destruct (copy_chars_ok buf L Hnul) as [o Hcp]. rewrite Hcp.
   erewrite mbind_ok by reflexivity.
   destruct (left_justify opts); apply osim_emit; assumption.
+Qed.
+
+(* the string routines never touch index `limit`: they behave as if the buffer ended there *)
+Lemma strnlen_reads_below_limit : forall buf p acc,
+  c_strnlen buf (Some p) acc = c_strnlen (firstn p buf) (Some p) acc.
+Proof.
+  induction buf as [|c r IH]; intros p acc; destruct p as [|p]; cbn [c_strnlen firstn]; try reflexivity.
+  destruct (N.eqb c 0); [reflexivity | apply IH].
+Qed.
+Lemma copy_chars_reads_below : forall n buf, copy_chars n buf = copy_chars n (firstn n buf).
+Proof.
+  induction n as [|n IH]; intros buf; [reflexivity|]. destruct buf as [|c r]; cbn [copy_chars firstn]; [reflexivity|].
+  destruct (N.eqb c 0); [reflexivity|]. rewrite IH. reflexivity.
 Qed.
 
 (* ---- the agent *)
 Definition int_kinds (m : lmod) : list argkind :=
   match m with ML => [] | Mll => [KLLong] | Ml | Mz | Mt | Mj => [KLong] | MNone | Mhh | Mh => [KInt] end.
 
-Lemma conv_kinds_int : forall t m, is_int_conv_char t = true -> conv_kinds t m = int_kinds m.
-Proof. intros t m H. unfold conv_kinds. rewrite H. destruct m; reflexivity. Qed.
+Lemma conv_kinds_int : forall t m lim ap, is_int_conv_char t = true -> conv_kinds t m lim ap = int_kinds m.
+Proof. intros t m lim ap H. unfold conv_kinds. rewrite H. destruct m; reflexivity. Qed.
 
 Lemma signed_kind : forall m,
   match signed_type (lmod_szmod m) with
   | None => int_kinds m = []
-  | Some ct => exists k, int_kinds m = [k] /\ ct_va ct = kind_va k /\ ctype_ok ct /\ k <> KStr
+  | Some ct => exists k, int_kinds m = [k] /\ ct_va ct = kind_va k /\ ctype_ok ct /\ (forall lim, k <> KStr lim)
   end.
-Proof. intros m; destruct m; cbn; try reflexivity; eexists; (split; [reflexivity|]); (split; [reflexivity|]); (split; [unfold ctype_ok; cbn; lia | discriminate]). Qed.
+Proof. intros m; destruct m; cbn; try reflexivity; eexists; (split; [reflexivity|]); (split; [reflexivity|]); (split; [unfold ctype_ok; cbn; lia | intros; discriminate]). Qed.
 Lemma unsigned_kind : forall m,
   match unsigned_type (lmod_szmod m) with
   | None => int_kinds m = []
-  | Some ct => exists k, int_kinds m = [k] /\ ct_va ct = kind_va k /\ ctype_ok ct /\ k <> KStr
+  | Some ct => exists k, int_kinds m = [k] /\ ct_va ct = kind_va k /\ ctype_ok ct /\ (forall lim, k <> KStr lim)
   end.
-Proof. intros m; destruct m; cbn; try reflexivity; eexists; (split; [reflexivity|]); (split; [reflexivity|]); (split; [unfold ctype_ok; cbn; lia | discriminate]). Qed.
+Proof. intros m; destruct m; cbn; try reflexivity; eexists; (split; [reflexivity|]); (split; [reflexivity|]); (split; [unfold ctype_ok; cbn; lia | intros; discriminate]). Qed.
 
 Lemma osim_print_unsigned : forall opts number radix prec prefix gt caps st ck,
   inv st ck -> (radix = 2 \/ radix = 8 \/ radix = 10 \/ radix = 16)%N -> - 2 ^ 63 <= number < 2 ^ 64 ->
@@ -643,27 +728,27 @@ Proof.
   rewrite Hpi. erewrite mbind_ok by reflexivity. apply osim_emit. assumption.
 Qed.
 
-Lemma osim_pop_then : forall ct k opts st ck ks ck' (body : Z -> M unit),
-  ctype_ok ct -> ct_va ct = kind_va k -> k <> KStr ->
-  inv st ck -> opts_ok opts -> fetch k (arg_pos opts) ck = Some (ks, ck') -> args_ok ks (va_rest (ps_vs st)) ->
+Lemma osim_pop_then : forall ct k opts st ck ks ck' prev0 (body : Z -> M unit),
+  ctype_ok ct -> ct_va ct = kind_va k -> (forall lim, k <> KStr lim) ->
+  inv st ck -> opts_ok opts -> fetch k (arg_pos opts) ck = Some (ks, ck') -> args_ok prev0 ks (va_rest (ps_vs st)) ->
   (forall number st1, inv st1 ck' -> - 2 ^ 63 <= number < 2 ^ 64 -> osim st1 [] ck' (body number st1) (fun _ => True)) ->
   osim st ks ck' (mbind (pop_arg ct opts) body st) (fun _ => True).
 Proof.
-  intros ct k opts st ck ks ck' body Hct Hva Hk Hinv Ho Hf Hargs Hbody.
+  intros ct k opts st ck ks ck' prev0 body Hct Hva Hk Hinv Ho Hf Hargs Hbody.
   eapply osim_bind_r.
-  - apply (pop_arg_sim ct k opts st ck ks ck'); try assumption. intros; congruence.
+  - apply (pop_arg_sim ct k opts st ck ks ck' prev0); try assumption. intros lim Hl. exfalso. exact (Hk lim Hl).
   - intros number st1 Hinv1 [Hrange _]. apply Hbody; assumption.
 Qed.
 
-Lemma agent_sim : forall t m opts st ck,
-  inv st ck -> opts_ok opts ->
-  match fetch_list (conv_kinds t m) (arg_pos opts) ck with
+Lemma agent_sim : forall t m opts st ck lim pv,
+  inv st ck -> opts_ok opts -> (arg_pos opts = -1 -> prec_rel lim pv (precision opts)) ->
+  match fetch_list (conv_kinds t m lim (arg_pos opts)) (arg_pos opts) ck with
   | None => True
-  | Some (ks, ck') => args_ok ks (va_rest (ps_vs st)) ->
+  | Some (ks, ck') => args_ok pv ks (va_rest (ps_vs st)) ->
                       osim st ks ck' (agent mem t opts (lmod_szmod m) st) (fun _ => True)
   end.
 Proof.
-  intros t m opts st ck Hinv Ho. unfold agent.
+  intros t m opts st ck lim pv Hinv Ho Hprel. unfold agent.
   destruct (N.eqb t 99 || N.eqb t 112 || N.eqb t 115) eqn:Echars.
   - (* c p s *)
     unfold do_printf_chars.
@@ -675,7 +760,7 @@ Proof.
       eapply osim_bind_l; [apply osim_assert; eassumption|]. intros _ st3 Hi3 _ Hr3.
       eapply osim_bind_l; [apply osim_assert; eassumption|]. intros _ st4 Hi4 _ Hr4.
       eapply osim_bind_l; [apply osim_emit; eassumption|]. intros _ st5 Hi5 _ Hr5.
-      apply (osim_pop_then t_ptr KPtr opts st5 ck ks ck'); try assumption; try reflexivity; try discriminate.
+      apply (osim_pop_then t_ptr KPtr opts st5 ck ks ck' pv); try assumption; try reflexivity; try (intros; discriminate).
       { unfold ctype_ok; cbn; lia. }
       { rewrite Hr5, Hr4, Hr3, Hr2, Hr1. assumption. }
       intros number st6 Hi6 Hrange. unfold print_int_default.
@@ -692,25 +777,25 @@ Proof.
       replace (minimum_width opts =? INT_MIN) with false by (unfold INT_MIN; lia).
       assert (Ho' : opts_ok opts) by (repeat split; assumption || lia).
       destruct (left_justify opts).
-      - apply (osim_pop_then t_char KInt opts st4 ck ks ck'); try assumption; try reflexivity; try discriminate.
+      - apply (osim_pop_then t_char KInt opts st4 ck ks ck' pv); try assumption; try reflexivity; try (intros; discriminate).
         { unfold ctype_ok; cbn; lia. }
         { rewrite Hr4, Hr3, Hr2, Hr1. assumption. }
         intros ch st5 Hi5 _.
         eapply osim_bind_l; [apply osim_emit; eassumption|]. intros _ st6 Hi6 _ _. apply osim_emit. assumption.
       - eapply osim_bind_l; [apply osim_emit; eassumption|]. intros _ st5 Hi5 _ Hr5.
-        apply (osim_pop_then t_char KInt opts st5 ck ks ck'); try assumption; try reflexivity; try discriminate.
+        apply (osim_pop_then t_char KInt opts st5 ck ks ck' pv); try assumption; try reflexivity; try (intros; discriminate).
         { unfold ctype_ok; cbn; lia. }
         { rewrite Hr5, Hr4, Hr3, Hr2, Hr1. assumption. }
         intros ch st6 Hi6 _. apply osim_emit. assumption. }
     destruct (N.eqb t 115) eqn:Es.
     { apply N.eqb_eq in Es. subst t. cbn [conv_kinds is_int_conv_char N.eqb Pos.eqb orb fetch_list].
-      destruct (fetch KStr (arg_pos opts) ck) as [[ks ck']|] eqn:Ef; [|exact I]. intros Hargs.
+      destruct (fetch (KStr (if arg_pos opts =? -1 then lim else SNone)) (arg_pos opts) ck) as [[ks ck']|] eqn:Ef; [|exact I]. intros Hargs.
       eapply osim_bind_l; [apply osim_assert; eassumption|]. intros _ st1 Hi1 _ Hr1.
       eapply osim_bind_l; [apply osim_assert; eassumption|]. intros _ st2 Hi2 _ Hr2.
       destruct (szmod_eqb (lmod_szmod m) default_size).
-      - apply (osim_printf_string opts st2 ck ks ck'); try assumption. rewrite Hr2, Hr1. assumption.
+      - apply (osim_printf_string opts st2 ck ks ck' lim pv); try assumption. rewrite Hr2, Hr1. assumption.
       - eapply osim_bind_l; [apply osim_assert; eassumption|]. intros _ st3 Hi3 _ Hr3.
-        apply (osim_printf_string opts st3 ck ks ck'); try assumption. rewrite Hr3, Hr2, Hr1. assumption. }
+        apply (osim_printf_string opts st3 ck ks ck' lim pv); try assumption. rewrite Hr3, Hr2, Hr1. assumption. }
     try rewrite Ep in Echars; try rewrite Ec in Echars; try rewrite Es in Echars; discriminate.
   - (* everything else goes to do_printf_ints *)
     apply orb_false_iff in Echars. destruct Echars as [Echars E115].
@@ -718,13 +803,13 @@ Proof.
     unfold do_printf_ints.
     destruct (N.eqb t 100 || N.eqb t 105) eqn:Edi.
     { assert (Hic : is_int_conv_char t = true) by (unfold is_int_conv_char; destruct (N.eqb t 100), (N.eqb t 105); cbn in *; congruence).
-      rewrite (conv_kinds_int t m Hic).
+      rewrite (conv_kinds_int t m lim (arg_pos opts) Hic).
       pose proof (signed_kind m) as Hsk.
       destruct (signed_type (lmod_szmod m)) as [ct|].
       - destruct Hsk as [k [Hk [Hva [Hct Hns]]]]. rewrite Hk. cbn [fetch_list].
         destruct (fetch k (arg_pos opts) ck) as [[ks ck']|] eqn:Ef; [|exact I]. intros Hargs.
         eapply osim_bind_l; [apply osim_assert; eassumption|]. intros _ st1 Hi1 _ Hr1.
-        apply (osim_pop_then ct k opts st1 ck ks ck'); try assumption.
+        apply (osim_pop_then ct k opts st1 ck ks ck' pv); try assumption.
         { rewrite Hr1. assumption. }
         intros number st2 Hi2 Hrange.
         destruct (print_int_is_ok number 10 (minimum_width opts) (prec_or_1 opts) (padding_of opts) (left_justify opts)
@@ -735,12 +820,12 @@ Proof.
     destruct (N.eqb t 98 || N.eqb t 66 || N.eqb t 111 || N.eqb t 120 || N.eqb t 88) eqn:Ebox.
     { assert (Hic : is_int_conv_char t = true).
       { unfold is_int_conv_char. destruct (N.eqb t 100), (N.eqb t 105), (N.eqb t 98), (N.eqb t 66), (N.eqb t 111), (N.eqb t 120), (N.eqb t 88); cbn in *; congruence. }
-      rewrite (conv_kinds_int t m Hic).
+      rewrite (conv_kinds_int t m lim (arg_pos opts) Hic).
       pose proof (unsigned_kind m) as Hsk.
       destruct (unsigned_type (lmod_szmod m)) as [ct|].
       - destruct Hsk as [k [Hk [Hva [Hct Hns]]]]. rewrite Hk. cbn [fetch_list].
         destruct (fetch k (arg_pos opts) ck) as [[ks ck']|] eqn:Ef; [|exact I]. intros Hargs.
-        apply (osim_pop_then ct k opts st ck ks ck'); try assumption.
+        apply (osim_pop_then ct k opts st ck ks ck' pv); try assumption.
         intros number st2 Hi2 Hrange.
         destruct (N.eqb t 98); [apply osim_print_unsigned; [assumption | lia | assumption]|].
         destruct (N.eqb t 66); [apply osim_print_unsigned; [assumption | lia | assumption]|].
@@ -750,18 +835,18 @@ Proof.
     destruct (N.eqb t 117) eqn:Eu.
     { assert (Hic : is_int_conv_char t = true).
       { unfold is_int_conv_char. rewrite Eu. rewrite !orb_true_r. reflexivity. }
-      rewrite (conv_kinds_int t m Hic).
+      rewrite (conv_kinds_int t m lim (arg_pos opts) Hic).
       pose proof (unsigned_kind m) as Hsk.
       destruct (unsigned_type (lmod_szmod m)) as [ct|].
       - destruct Hsk as [k [Hk [Hva [Hct Hns]]]]. rewrite Hk. cbn [fetch_list].
         destruct (fetch k (arg_pos opts) ck) as [[ks ck']|] eqn:Ef; [|exact I]. intros Hargs.
-        apply (osim_pop_then ct k opts st ck ks ck'); try assumption.
+        apply (osim_pop_then ct k opts st ck ks ck' pv); try assumption.
         intros number st2 Hi2 Hrange.
         eapply osim_bind_l; [apply osim_assert; eassumption|]. intros _ st3 Hi3 _ Hr3.
         apply osim_print_unsigned; [assumption | lia | assumption].
       - rewrite Hsk. cbn [fetch_list]. intros _. apply osim_fail_assert. }
     (* no conversion of the model *)
-    assert (Hck : conv_kinds t m = []).
+    assert (Hck : conv_kinds t m lim (arg_pos opts) = []).
     { unfold conv_kinds.
       assert (Hic : is_int_conv_char t = false).
       { unfold is_int_conv_char. apply orb_false_iff in Edi. destruct Edi as [E1 E2]. rewrite E1, E2. cbn [orb].
@@ -776,18 +861,26 @@ Lemma arg_pos_set_width : forall w o, arg_pos (set_width w o) = arg_pos o. Proof
 Lemma arg_pos_set_left : forall o, arg_pos (set_left o) = arg_pos o. Proof. intros o; destruct o; reflexivity. Qed.
 Lemma arg_pos_set_precision : forall p o, arg_pos (set_precision p o) = arg_pos o. Proof. intros p o; destruct o; reflexivity. Qed.
 
-Definition wpost (pos1 : nat) (l2 : list N) (ap : Z) (y : nat * format_options) : Prop :=
-  (pos1 <= fst y < length s)%nat /\ sfx (fst y) = l2 /\ opts_ok (snd y) /\ arg_pos (snd y) = ap.
+Lemma precision_set_width : forall w o, precision (set_width w o) = precision o. Proof. intros w o; destruct o; reflexivity. Qed.
+Lemma precision_set_left : forall o, precision (set_left o) = precision o. Proof. intros o; destruct o; reflexivity. Qed.
+Lemma precision_set_precision : forall p o, precision (set_precision p o) = Some p. Proof. intros p o; destruct o; reflexivity. Qed.
+
+Definition wpost (pos1 : nat) (l2 : list N) (ap : Z) (pr : option Z) (y : nat * format_options) : Prop :=
+  (pos1 <= fst y < length s)%nat /\ sfx (fst y) = l2 /\ opts_ok (snd y) /\ arg_pos (snd y) = ap /\ precision (snd y) = pr.
+Definition ppost (pos2 : nat) (l4 : list N) (ap : Z) (lim : slimit) (pv : N) (y : nat * format_options) : Prop :=
+  (pos2 <= fst y < length s)%nat /\ sfx (fst y) = l4 /\ opts_ok (snd y) /\ arg_pos (snd y) = ap
+  /\ (ap = -1 -> prec_rel lim pv (precision (snd y))).
 
 Lemma osim_star_width : forall w opts st ck, inv st ck -> opts_ok opts ->
-  osim st [] ck (star_width w opts st) (fun o => opts_ok o /\ arg_pos o = arg_pos opts).
+  osim st [] ck (star_width w opts st) (fun o => opts_ok o /\ arg_pos o = arg_pos opts /\ precision o = precision opts).
 Proof.
   intros w opts st ck Hinv Ho. unfold star_width. destruct (w <? 0) eqn:Ew.
   - eapply osim_bind_l; [apply osim_assert; eassumption|]. intros _ st2 Hi2 _ _.
-    apply osim_ret; [assumption|]. split.
+    apply osim_ret; [assumption|]. split; [|split].
     + apply set_width_ok; [lia | apply set_left_ok; assumption].
     + rewrite arg_pos_set_width, arg_pos_set_left. reflexivity.
-  - apply osim_ret; [assumption|]. split; [apply set_width_ok; [lia | assumption] | apply arg_pos_set_width].
+    + rewrite precision_set_width, precision_set_left. reflexivity.
+  - apply osim_ret; [assumption|]. split; [apply set_width_ok; [lia | assumption] | split; [apply arg_pos_set_width | apply precision_set_width]].
 Qed.
 
 Lemma width_sim : forall fuel pos1 opts st ck,
@@ -804,10 +897,11 @@ Lemma width_sim : forall fuel pos1 opts st ck,
   match (if N.eqb (hd0 (sfx pos1)) 42 then
            (if N.eqb (hd0 (tl (sfx pos1))) 0 then WCut
             else match fetch KInt (arg_pos opts) ck with None => WConf | Some (k1, ck1) => WOk k1 ck1 (tl (sfx pos1)) end)
-         else match sk_number (sfx pos1) 0 with None => WCut | Some l2 => WOk [] ck l2 end) with
+         else match sk_number (sfx pos1) 0 with None => WCut | Some (_, l2) => WOk [] ck l2 end) with
   | WConf => True
   | WCut => osim st [] ck (comp st) (fun _ => False)
-  | WOk k1 ck1 l2 => args_ok k1 (va_rest (ps_vs st)) -> osim st k1 ck1 (comp st) (wpost pos1 l2 (arg_pos opts))
+  | WOk k1 ck1 l2 => forall prev, args_ok prev k1 (va_rest (ps_vs st)) ->
+                     osim st k1 ck1 (comp st) (wpost pos1 l2 (arg_pos opts) (precision opts))
   end.
 Proof.
   intros fuel pos1 opts st ck Hp Hf Hinv Ho. cbv zeta.
@@ -817,28 +911,29 @@ Proof.
     + erewrite mbind_stop by (apply assert_nz_stop; [lia | assumption]).
       cbn. exists []. split; [apply is_prefix_nil | rewrite app_nil_r; reflexivity].
     + assert (Hp1 : (pos1 + 1 < length s)%nat) by (apply sfx_nonnil; intro H0; rewrite H0 in E0; discriminate).
-      destruct (fetch KInt (arg_pos opts) ck) as [[k1 ck1]|] eqn:Ef; [|exact I]. intros Hargs.
+      destruct (fetch KInt (arg_pos opts) ck) as [[k1 ck1]|] eqn:Ef; [|exact I]. intros prev Hargs.
       erewrite mbind_ok by (apply assert_nz_ok; [lia | assumption]).
       eapply osim_bind_r.
-      { apply (pop_arg_sim t_int KInt opts st ck k1 ck1); try assumption; try reflexivity; try discriminate.
+      { apply (pop_arg_sim t_int KInt opts st ck k1 ck1 prev); try assumption; try reflexivity; try (intros; discriminate).
         unfold ctype_ok; cbn; lia. }
       intros w st1 Hi1 _. cbv beta.
       eapply osim_bind_l.
       { apply (osim_star_width w opts st1 ck1); assumption. }
-      intros o st2 Hi2 [Hoo Hoa] _. cbv beta.
+      intros o st2 Hi2 [Hoo [Hoa Hop]] _. cbv beta.
       apply osim_ret; [assumption|]. unfold wpost. cbn [fst snd].
-      split; [lia|]. split; [reflexivity|]. split; assumption.
+      split; [lia|]. split; [reflexivity|]. split; [assumption|]. split; assumption.
   - pose proof (number_loop_sim fuel msg_width_overflow pos1 0 st Hp Hf ltac:(unfold INT_MAX; lia)) as Hn.
-    destruct (sk_number (sfx pos1) 0) as [l2|].
-    + destruct Hn as [pos' [w' [Hrun [Hpp [Hl Hw']]]]]. intros _.
+    destruct (sk_number (sfx pos1) 0) as [[v l2]|].
+    + destruct Hn as [pos' [Hrun [Hpp [Hl Hw']]]]. intros prev _.
       erewrite mbind_ok by (exact Hrun). apply osim_ret; [assumption|]. unfold wpost. cbn [fst snd].
-      split; [lia|]. split; [assumption|]. split; [apply set_width_ok; [lia | assumption] | apply arg_pos_set_width].
+      split; [lia|]. split; [assumption|]. split; [apply set_width_ok; [lia | assumption]|].
+      split; [apply arg_pos_set_width | apply precision_set_width].
     + destruct Hn as [m Hrun]. erewrite mbind_stop by (exact Hrun).
       cbn. exists []. split; [apply is_prefix_nil | rewrite app_nil_r; reflexivity].
 Qed.
 
 Lemma prec_sim : forall fuel pos2 opts st ck,
-  (pos2 < length s)%nat -> (length s - pos2 < fuel)%nat -> inv st ck -> opts_ok opts ->
+  (pos2 < length s)%nat -> (length s - pos2 < fuel)%nat -> inv st ck -> opts_ok opts -> precision opts = None ->
   let comp :=
     (if N.eqb (hd0 (sfx pos2)) 46 then
        _ <-- assert_nz s (pos2 + 1) ;;;
@@ -853,18 +948,19 @@ Lemma prec_sim : forall fuel pos2 opts st ck,
      else ret (pos2, opts)) in
   match (if N.eqb (hd0 (sfx pos2)) 46 then
            let l3 := tl (sfx pos2) in
-           if N.eqb (hd0 l3) 0 then WCut
+           if N.eqb (hd0 l3) 0 then PCut
            else if N.eqb (hd0 l3) 42 then
-             (if N.eqb (hd0 (tl l3)) 0 then WCut
-              else match fetch KInt (arg_pos opts) ck with None => WConf | Some (k2, ck2) => WOk k2 ck2 (tl l3) end)
-           else match sk_number l3 0 with None => WCut | Some l4 => WOk [] ck l4 end
-         else WOk [] ck (sfx pos2)) with
-  | WConf => True
-  | WCut => osim st [] ck (comp st) (fun _ => False)
-  | WOk k2 ck2 l4 => args_ok k2 (va_rest (ps_vs st)) -> osim st k2 ck2 (comp st) (wpost pos2 l4 (arg_pos opts))
+             (if N.eqb (hd0 (tl l3)) 0 then PCut
+              else match fetch KInt (arg_pos opts) ck with None => PConf | Some (k2, ck2) => POk k2 ck2 (tl l3) SStar end)
+           else match sk_number l3 0 with None => PCut | Some (v, l4) => POk [] ck l4 (SLit (Z.to_nat v)) end
+         else POk [] ck (sfx pos2) SNone) with
+  | PConf => True
+  | PCut => osim st [] ck (comp st) (fun _ => False)
+  | POk k2 ck2 l4 lim => forall prev, args_ok prev k2 (va_rest (ps_vs st)) ->
+                         osim st k2 ck2 (comp st) (ppost pos2 l4 (arg_pos opts) lim (hd 0%N (va_rest (ps_vs st))))
   end.
 Proof.
-  intros fuel pos2 opts st ck Hp Hf Hinv Ho. cbv zeta.
+  intros fuel pos2 opts st ck Hp Hf Hinv Ho Hpn. cbv zeta.
   destruct (N.eqb (hd0 (sfx pos2)) 46) eqn:E46.
   - rewrite <- sfx_plus1.
     destruct (N.eqb (hd0 (sfx (pos2 + 1))) 0) eqn:E0.
@@ -879,38 +975,81 @@ Proof.
         -- erewrite mbind_stop by (apply assert_nz_stop; [lia | assumption]).
            cbn. exists []. split; [apply is_prefix_nil | rewrite app_nil_r; reflexivity].
         -- assert (Hp2 : (pos2 + 2 < length s)%nat) by (apply sfx_nonnil; intro H0; rewrite H0 in E02; discriminate).
-           destruct (fetch KInt (arg_pos opts) ck) as [[k2 ck2]|] eqn:Ef; [|exact I]. intros Hargs.
+           destruct (fetch KInt (arg_pos opts) ck) as [[k2 ck2]|] eqn:Ef; [|exact I]. intros prev Hargs.
            erewrite mbind_ok by (apply assert_nz_ok; [lia | assumption]).
            eapply osim_bind_r.
-           { apply (pop_arg_sim t_int KInt opts st ck k2 ck2); try assumption; try reflexivity; try discriminate.
+           { apply (pop_arg_sim t_int KInt opts st ck k2 ck2 prev); try assumption; try reflexivity; try (intros; discriminate).
              unfold ctype_ok; cbn; lia. }
-           intros p st1 Hi1 _. cbv beta.
-           apply osim_ret; [assumption|]. unfold wpost. cbn [fst snd].
+           intros p st1 Hi1 [_ [_ Hpv]]. cbv beta.
+           apply osim_ret; [assumption|]. unfold ppost. cbn [fst snd].
            split; [lia|]. split; [reflexivity|].
-           destruct (0 <=? p); split; try assumption; try reflexivity;
-             [apply set_precision_ok; assumption | apply arg_pos_set_precision].
+           destruct (0 <=? p) eqn:Ep0.
+           ++ split; [apply set_precision_ok; assumption|]. split; [apply arg_pos_set_precision|].
+              intros Hm1. cbn [prec_rel]. rewrite precision_set_precision. rewrite <- (Hpv Hm1). cbv zeta. rewrite Ep0. reflexivity.
+           ++ split; [assumption|]. split; [reflexivity|].
+              intros Hm1. cbn [prec_rel]. rewrite Hpn. rewrite <- (Hpv Hm1). cbv zeta. rewrite Ep0. reflexivity.
       * pose proof (number_loop_sim fuel msg_precision_overflow (pos2 + 1)%nat 0 st Hp1 ltac:(lia) ltac:(unfold INT_MAX; lia)) as Hn.
-        destruct (sk_number (sfx (pos2 + 1)) 0) as [l4|].
-        -- destruct Hn as [pos' [w' [Hrun [Hpp [Hl Hw']]]]]. intros _.
-           erewrite mbind_ok by (exact Hrun). apply osim_ret; [assumption|]. unfold wpost. cbn [fst snd].
-           split; [lia|]. split; [assumption|]. split; [apply set_precision_ok; assumption | apply arg_pos_set_precision].
+        destruct (sk_number (sfx (pos2 + 1)) 0) as [[v l4]|].
+        -- destruct Hn as [pos' [Hrun [Hpp [Hl Hw']]]]. intros prev _.
+           erewrite mbind_ok by (exact Hrun). apply osim_ret; [assumption|]. unfold ppost. cbn [fst snd].
+           split; [lia|]. split; [assumption|]. split; [apply set_precision_ok; assumption|]. split; [apply arg_pos_set_precision|].
+           intros _. cbn [prec_rel]. rewrite precision_set_precision. rewrite Z2Nat.id by lia. reflexivity.
         -- destruct Hn as [m Hrun]. erewrite mbind_stop by (exact Hrun).
            cbn. exists []. split; [apply is_prefix_nil | rewrite app_nil_r; reflexivity].
-  - intros _. apply osim_ret; [assumption|]. unfold wpost. cbn [fst snd].
-    split; [lia|]. split; [reflexivity|]. split; [assumption | reflexivity].
+  - intros prev _. apply osim_ret; [assumption|]. unfold ppost. cbn [fst snd].
+    split; [lia|]. split; [reflexivity|]. split; [assumption|]. split; [reflexivity|]. intros _. exact Hpn.
 Qed.
 
 Lemma osim_false_bind : forall A B (m : M A) (f : A -> M B) st k ck ck2 (Q2 : B -> Prop),
   osim st k ck (m st) (fun _ => False) -> osim st k ck2 (mbind m f st) Q2.
 Proof. intros. eapply osim_bind_r; [eassumption | intros a st1 _ []]. Qed.
 
+Lemma conv_fetch_star : forall t m lim ap ck k3 ck3,
+  fetch_list (conv_kinds t m lim ap) ap ck = Some (k3, ck3) -> nth 0 k3 KInt = KStr SStar -> lim = SStar /\ ap = -1.
+Proof.
+  intros t m lim ap ck k3 ck3 Hf Hn. unfold conv_kinds in Hf.
+  assert (Hgen : forall k, (forall l, k = KStr l -> l = (if ap =? -1 then lim else SNone)) ->
+                           fetch k ap ck = Some (k3, ck3) -> lim = SStar /\ ap = -1).
+  { intros k Hk Hfk. unfold fetch in Hfk.
+    assert (Hk3 : k = KStr SStar).
+    { destruct (ap =? -1); [inversion Hfk; subst; cbn in Hn; assumption|].
+      destruct (ap <? Z.of_nat (length ck)).
+      - destruct (kind_eqb _ k); inversion Hfk; subst; cbn in Hn; discriminate.
+      - inversion Hfk; subst. destruct (Z.to_nat (ap + 1 - Z.of_nat (length ck))); cbn in Hn; [discriminate | assumption]. }
+    specialize (Hk SStar Hk3). destruct (ap =? -1) eqn:E; [|discriminate]. split; [congruence | lia]. }
+  destruct (is_int_conv_char t).
+  { destruct m; cbn [fetch_list] in Hf; try (inversion Hf; subst; cbn in Hn; discriminate);
+      (eapply Hgen; [|exact Hf]; intros l Hl; discriminate). }
+  destruct (N.eqb t 99); [cbn [fetch_list] in Hf; eapply Hgen; [|exact Hf]; intros l Hl; discriminate|].
+  destruct (N.eqb t 115); [cbn [fetch_list] in Hf; eapply Hgen; [|exact Hf]; intros l Hl; inversion Hl; reflexivity|].
+  destruct (N.eqb t 112); [cbn [fetch_list] in Hf; eapply Hgen; [|exact Hf]; intros l Hl; discriminate|].
+  cbn [fetch_list] in Hf. inversion Hf; subst. cbn in Hn. discriminate.
+Qed.
+
+Lemma pexpr_star : forall (b1 b2 b3 b4 : bool) ap ck1 (l3t l2 : list N) (num : option (Z * list N)) k2 ck2 l4,
+  (if b1 then
+     if b2 then PCut
+     else if b3 then (if b4 then PCut else match fetch KInt ap ck1 with None => PConf | Some (k2, ck2) => POk k2 ck2 l3t SStar end)
+          else match num with None => PCut | Some (v, l4) => POk [] ck1 l4 (SLit (Z.to_nat v)) end
+   else POk [] ck1 l2 SNone) = POk k2 ck2 l4 SStar ->
+  ap = -1 -> k2 = [KInt].
+Proof.
+  intros b1 b2 b3 b4 ap ck1 l3t l2 num k2 ck2 l4 H Hap. subst ap.
+  destruct b1; [|discriminate]. destruct b2; [discriminate|]. destruct b3.
+  - destruct b4; [discriminate|]. cbn in H. inversion H. reflexivity.
+  - destruct num as [[v l]|]; discriminate.
+Qed.
+
+Lemma hd_nth0 : forall (l : list N), hd 0%N l = nth 0 l 0%N.
+Proof. intros [|x r]; reflexivity. Qed.
+
 Lemma directive_sim : forall pos dollar st ck,
   (pos < length s)%nat -> inv st ck ->
   match sk_directive (sfx pos) ck with
   | DConf => True
-  | DCut ks => args_ok ks (va_rest (ps_vs st)) ->
+  | DCut ks => forall prev, args_ok prev ks (va_rest (ps_vs st)) ->
                osim st ks ck (parse_directive s (agent mem) pos dollar st) (fun _ => False)
-  | DOk ks ck' l' => args_ok ks (va_rest (ps_vs st)) ->
+  | DOk ks ck' l' => forall prev, args_ok prev ks (va_rest (ps_vs st)) ->
                      osim st ks ck' (parse_directive s (agent mem) pos dollar st)
                           (fun x => (pos < fst x <= length s)%nat /\ sfx (fst x) = l')
   end.
@@ -919,81 +1058,79 @@ Proof.
   pose proof (flags_loop_sim (S (length s)) pos (set_dollar dollar default_options) dollar st Hp ltac:(lia)
                 (set_dollar_default_ok dollar)) as HF.
   replace (arg_pos (set_dollar dollar default_options)) with (-1) in HF by reflexivity.
+  replace (precision (set_dollar dollar default_options)) with (@None Z) in HF by reflexivity.
   destruct (sk_flags (sfx pos) (-1)) as [[ap l1]|].
-  2: { destruct HF as [w Hrun]. intros _. erewrite mbind_stop by (exact Hrun).
+  2: { destruct HF as [w Hrun]. intros prev _. erewrite mbind_stop by (exact Hrun).
        cbn. exists []. split; [apply is_prefix_nil | rewrite app_nil_r; reflexivity]. }
-  destruct HF as [pos1 [opts1 [d1 [Hrun [Hpp1 [Hl1 [Hap1 Ho1]]]]]]]. subst l1 ap.
+  destruct HF as [pos1 [opts1 [d1 [Hrun [Hpp1 [Hl1 [Hap1 [Ho1 Hpr1]]]]]]]]. subst l1 ap.
   erewrite mbind_ok by (exact Hrun). cbv beta iota.
   erewrite mbind_ok by (apply rd_sfx; lia).
   pose proof (width_sim (S (length s)) pos1 opts1 st ck ltac:(lia) ltac:(lia) Hinv Ho1) as HW. cbv zeta in HW.
-  destruct (if N.eqb (hd0 (sfx pos1)) 42
-            then if N.eqb (hd0 (tl (sfx pos1))) 0 then WCut
-                 else match fetch KInt (arg_pos opts1) ck with
-                      | Some (k1, ck1) => WOk k1 ck1 (tl (sfx pos1))
-                      | None => WConf
-                      end
-            else match sk_number (sfx pos1) 0 with
-                 | Some l2 => WOk [] ck l2
-                 | None => WCut
-                 end) as [| |k1 ck1 l2].
-  { intros _. eapply osim_false_bind. exact HW. }
+  lazymatch goal with
+  | |- match (match ?W with WCut => _ | WConf => _ | WOk _ _ _ => _ end) with DCut _ => _ | DConf => _ | DOk _ _ _ => _ end =>
+    destruct W as [| |k1 ck1 l2]
+  end.
+  { intros prev _. eapply osim_false_bind. exact HW. }
   { exact I. }
   (* precision *)
-  destruct (if N.eqb (hd0 l2) 46
-            then let l3 := tl l2 in
-                 if N.eqb (hd0 l3) 0 then WCut
-                 else if N.eqb (hd0 l3) 42
-                      then if N.eqb (hd0 (tl l3)) 0 then WCut
-                           else match fetch KInt (arg_pos opts1) ck1 with
-                                | Some (k2, ck2) => WOk k2 ck2 (tl l3)
-                                | None => WConf
-                                end
-                      else match sk_number l3 0 with
-                           | Some l4 => WOk [] ck1 l4
-                           | None => WCut
-                           end
-            else WOk [] ck1 l2) as [| |k2 ck2 l4] eqn:EP.
+  lazymatch goal with
+  | |- match (match ?P with PCut => _ | PConf => _ | POk _ _ _ _ => _ end) with DCut _ => _ | DConf => _ | DOk _ _ _ => _ end =>
+    destruct P as [| |k2 ck2 l4 lim] eqn:EP
+  end.
   { (* cut inside the precision *)
-    intros Hargs. rewrite <- (app_nil_r k1). eapply osim_bind; [apply HW; assumption|].
-    intros [pos2 opts2] st1 Hi1 [Hpp2 [Hl2 [Ho2 Hap2]]] Hrest1. cbn [fst snd] in *. cbv iota.
+    intros prev Hargs. rewrite <- (app_nil_r k1). eapply osim_bind; [apply (HW prev); assumption|].
+    intros [pos2 opts2] st1 Hi1 [Hpp2 [Hl2 [Ho2 [Hap2 Hpr2]]]] Hrest1. cbn [fst snd] in *. cbv iota.
     erewrite mbind_ok by (apply rd_sfx; lia).
-    pose proof (prec_sim (S (length s)) pos2 opts2 st1 ck1 ltac:(lia) ltac:(lia) Hi1 Ho2) as HP. cbv zeta in HP.
+    pose proof (prec_sim (S (length s)) pos2 opts2 st1 ck1 ltac:(lia) ltac:(lia) Hi1 Ho2 ltac:(congruence)) as HP. cbv zeta in HP.
     rewrite Hl2, Hap2 in HP. cbv zeta in EP. rewrite EP in HP.
     rewrite Hl2. eapply osim_false_bind. exact HP. }
   { exact I. }
   (* length modifier, conversion *)
   destruct (sk_mod l4) as [[m l5]|] eqn:EM.
   2: { (* cut inside the length modifier *)
-    intros Hargs. destruct (args_ok_app k1 k2 _ Hargs) as [Hargs1 Hargs2].
-    eapply osim_bind; [apply HW; assumption|].
-    intros [pos2 opts2] st1 Hi1 [Hpp2 [Hl2 [Ho2 Hap2]]] Hrest1. cbn [fst snd] in *. cbv iota.
+    intros prev Hargs. destruct (args_ok_app prev k1 k2 _ Hargs) as [Hargs1 Hargs2].
+    eapply osim_bind; [apply (HW prev); assumption|].
+    intros [pos2 opts2] st1 Hi1 [Hpp2 [Hl2 [Ho2 [Hap2 Hpr2]]]] Hrest1. cbn [fst snd] in *. cbv iota.
     erewrite mbind_ok by (apply rd_sfx; lia).
-    pose proof (prec_sim (S (length s)) pos2 opts2 st1 ck1 ltac:(lia) ltac:(lia) Hi1 Ho2) as HP. cbv zeta in HP.
+    pose proof (prec_sim (S (length s)) pos2 opts2 st1 ck1 ltac:(lia) ltac:(lia) Hi1 Ho2 ltac:(congruence)) as HP. cbv zeta in HP.
     rewrite Hl2, Hap2 in HP. cbv zeta in EP. rewrite EP in HP.
     rewrite <- (app_nil_r k2). rewrite Hl2.
-    eapply osim_bind; [apply HP; rewrite Hrest1; assumption|].
-    intros [pos3 opts3] st2 Hi2 [Hpp3 [Hl3 [Ho3 Hap3]]] Hrest2. cbn [fst snd] in *. cbv iota.
+    eapply osim_bind; [eapply HP; rewrite Hrest1; eassumption|].
+    intros [pos3 opts3] st2 Hi2 [Hpp3 [Hl3 [Ho3 [Hap3 Hprel]]]] Hrest2. cbn [fst snd] in *. cbv iota.
     pose proof (parse_size_mod_sim pos3 st2 ltac:(lia)) as HM. rewrite Hl3, EM in HM.
     destruct HM as [w HMrun]. erewrite mbind_stop by (exact HMrun).
     cbn. exists []. split; [apply is_prefix_nil | rewrite app_nil_r; reflexivity]. }
-  destruct (fetch_list (conv_kinds (hd0 l5) m) (arg_pos opts1) ck2) as [[k3 ck3]|] eqn:EA; [|exact I].
-  intros Hargs.
-  destruct (args_ok_app k1 (k2 ++ k3) _ Hargs) as [Hargs1 Hargs23].
-  eapply osim_bind; [apply HW; assumption|].
-  intros [pos2 opts2] st1 Hi1 [Hpp2 [Hl2 [Ho2 Hap2]]] Hrest1. cbn [fst snd] in *. cbv iota.
+  destruct (fetch_list (conv_kinds (hd0 l5) m lim (arg_pos opts1)) (arg_pos opts1) ck2) as [[k3 ck3]|] eqn:EA; [|exact I].
+  intros prev Hargs.
+  destruct (args_ok_app prev k1 (k2 ++ k3) _ Hargs) as [Hargs1 Hargs23].
+  eapply osim_bind; [apply (HW prev); assumption|].
+  intros [pos2 opts2] st1 Hi1 [Hpp2 [Hl2 [Ho2 [Hap2 Hpr2]]]] Hrest1. cbn [fst snd] in *. cbv iota.
   erewrite mbind_ok by (apply rd_sfx; lia).
-  pose proof (prec_sim (S (length s)) pos2 opts2 st1 ck1 ltac:(lia) ltac:(lia) Hi1 Ho2) as HP. cbv zeta in HP.
+  pose proof (prec_sim (S (length s)) pos2 opts2 st1 ck1 ltac:(lia) ltac:(lia) Hi1 Ho2 ltac:(congruence)) as HP. cbv zeta in HP.
   rewrite Hl2, Hap2 in HP. cbv zeta in EP. rewrite EP in HP.
-  rewrite <- Hrest1 in Hargs23. destruct (args_ok_app k2 k3 _ Hargs23) as [Hargs2 Hargs3].
+  rewrite <- Hrest1 in Hargs23.
+  set (prev1 := last_prev prev (length k1) (va_rest (ps_vs st))) in *.
+  destruct (args_ok_app prev1 k2 k3 _ Hargs23) as [Hargs2 Hargs3].
   rewrite Hl2.
-  eapply osim_bind; [apply HP; assumption|].
-  intros [pos3 opts3] st2 Hi2 [Hpp3 [Hl3 [Ho3 Hap3]]] Hrest2. cbn [fst snd] in *. cbv iota.
+  eapply osim_bind; [apply (HP prev1); assumption|].
+  intros [pos3 opts3] st2 Hi2 [Hpp3 [Hl3 [Ho3 [Hap3 Hprel]]]] Hrest2. cbn [fst snd] in *. cbv iota.
   pose proof (parse_size_mod_sim pos3 st2 ltac:(lia)) as HM. rewrite Hl3, EM in HM.
   destruct HM as [pos4 [HMrun [Hpp4 Hl4]]].
   erewrite mbind_ok by (exact HMrun). cbv beta iota.
   erewrite mbind_ok by (apply rd_sfx; lia). rewrite Hl4.
-  pose proof (agent_sim (hd0 l5) m opts3 st2 ck2 Hi2 Ho3) as HA. rewrite Hap3, EA in HA.
-  eapply osim_bind_r; [apply HA; rewrite Hrest2; assumption|].
+  set (pv := hd 0%N (va_rest (ps_vs st1))) in *.
+  pose proof (agent_sim (hd0 l5) m opts3 st2 ck2 lim pv Hi2 Ho3) as HA. rewrite Hap3 in HA. specialize (HA Hprel). rewrite EA in HA.
+  (* the previous argument, as the agent needs it *)
+  assert (Hargs3' : args_ok pv k3 (va_rest (ps_vs st2))).
+  { rewrite Hrest2.
+    destruct (nth 0 k3 KInt) as [| | | |l0] eqn:E0;
+      try (eapply args_ok_prev; [|exact Hargs3]; intros l Hl; rewrite E0 in Hl; discriminate).
+    destruct l0 as [|n0|];
+      try (eapply args_ok_prev; [|exact Hargs3]; intros l Hl; rewrite E0 in Hl; inversion Hl; discriminate).
+    destruct (conv_fetch_star _ _ _ _ _ _ _ EA E0) as [Hls Hapm].
+    subst lim. pose proof (pexpr_star _ _ _ _ _ _ _ _ _ _ _ _ EP Hapm) as Hk2. subst k2.
+    cbn [length last_prev] in Hargs3. subst pv. rewrite hd_nth0. exact Hargs3. }
+  eapply osim_bind_r; [apply HA; exact Hargs3'|].
   intros _ st3 Hi3 _. apply osim_ret; [assumption|]. cbn [fst].
   split; [lia|]. rewrite sfx_plus1. rewrite Hl4. reflexivity.
 Qed.
@@ -1003,7 +1140,7 @@ Lemma format_sim : forall fuel pos dollar st ck,
   (pos <= length s)%nat -> (length s - pos < fuel)%nat -> inv st ck ->
   match sk_format fuel (sfx pos) ck with
   | None => True
-  | Some ks => args_ok ks (va_rest (ps_vs st)) ->
+  | Some ks => forall prev, args_ok prev ks (va_rest (ps_vs st)) ->
                exists ckf, osim st ks ckf (format_loop s (agent mem) fuel pos dollar st) (fun _ => True)
   end.
 Proof.
@@ -1011,7 +1148,7 @@ Proof.
   cbn [sk_format format_loop].
   erewrite mbind_ok by (apply rd_sfx; lia).
   destruct (N.eqb (hd0 (sfx pos)) 0) eqn:E0.
-  { intros _. exists ck. apply osim_ret; [assumption | exact I]. }
+  { intros prev _. exists ck. apply osim_ret; [assumption | exact I]. }
   assert (Hlt : (pos < length s)%nat) by (apply sfx_nonnil; intro H0; rewrite H0 in E0; discriminate).
   destruct (negb (N.eqb (hd0 (sfx pos)) 37)) eqn:E37.
   - (* literal text *)
@@ -1019,15 +1156,15 @@ Proof.
     rewrite sfx_plus1 in Hs. rewrite <- Hs.
     specialize (IH (pos + n')%nat dollar).
     destruct (sk_format fuel (sfx (pos + n')) ck) as [ks|] eqn:ES; [|exact I].
-    intros Hargs.
+    intros prev Hargs.
     erewrite mbind_ok by (exact Hrun).
     erewrite mbind_ok by reflexivity.
     specialize (IH (mk_ps (ps_out st ++ firstn n' (skipn pos s)) (ps_vs st)) ck ltac:(lia) ltac:(lia) Hinv).
-    rewrite ES in IH. exact (IH Hargs).
+    rewrite ES in IH. exact (IH prev Hargs).
   - (* '%' *)
     rewrite <- sfx_plus1.
     destruct (N.eqb (hd0 (sfx (pos + 1))) 0) eqn:E1.
-    { intros _. exists ck. erewrite mbind_stop by (apply assert_nz_stop; [lia | assumption]).
+    { intros prev _. exists ck. erewrite mbind_stop by (apply assert_nz_stop; [lia | assumption]).
       cbn. exists []. split; [apply is_prefix_nil | rewrite app_nil_r; reflexivity]. }
     assert (Hlt1 : (pos + 1 < length s)%nat) by (apply sfx_nonnil; intro H0; rewrite H0 in E1; discriminate).
     erewrite mbind_ok by (apply assert_nz_ok; [lia | assumption]).
@@ -1037,21 +1174,21 @@ Proof.
       rewrite <- sfx_plus1. replace (pos + 1 + 1)%nat with (pos + 2)%nat by lia.
       specialize (IH (pos + 2)%nat dollar (mk_ps (ps_out st ++ [37%N]) (ps_vs st)) ck ltac:(lia) ltac:(lia) Hinv).
       destruct (sk_format fuel (sfx (pos + 2)) ck) as [ks|]; [|exact I].
-      intros Hargs. erewrite mbind_ok by reflexivity. exact (IH Hargs).
+      intros prev Hargs. erewrite mbind_ok by reflexivity. exact (IH prev Hargs).
     + (* a directive *)
       pose proof (directive_sim (pos + 1)%nat dollar st ck Hlt1 Hinv) as HD.
       destruct (sk_directive (sfx (pos + 1)) ck) as [ks | | ks ck' l'].
-      * intros Hargs. exists ck. eapply osim_false_bind. apply HD. assumption.
+      * intros prev Hargs. exists ck. eapply osim_false_bind. apply (HD prev). assumption.
       * exact I.
       * destruct (sk_format fuel l' ck') as [ks'|] eqn:ES; [|exact I].
-        intros Hargs. destruct (args_ok_app ks ks' _ Hargs) as [Ha1 Ha2].
-        specialize (HD Ha1).
+        intros prev Hargs. destruct (args_ok_app prev ks ks' _ Hargs) as [Ha1 Ha2].
+        specialize (HD prev Ha1).
         (* run the directive, then the rest *)
         unfold mbind.
         destruct (parse_directive s (agent mem) (pos + 1) dollar st) as [st1 [x|w|w|]]; cbn [osim] in HD; try contradiction.
         -- destruct HD as [Hi1 [Hlog1 [Hrest1 [Hpx Hlx]]]].
            specialize (IH (fst x) (snd x) st1 ck' ltac:(lia) ltac:(lia) Hi1).
-           rewrite Hlx, ES in IH. rewrite <- Hrest1 in Ha2. destruct (IH Ha2) as [ckf Hrec].
+           rewrite Hlx, ES in IH. rewrite <- Hrest1 in Ha2. destruct (IH _ Ha2) as [ckf Hrec].
            exists ckf.
            destruct (format_loop s (agent mem) fuel (fst x) (snd x) st1) as [st2 [u|w|w|]]; cbn [osim] in *; try contradiction.
            ++ destruct Hrec as [Hi2 [Hlog2 [Hrest2 _]]]. split; [assumption|]. split.
@@ -1066,10 +1203,8 @@ Qed.
 End Bridge.
 
 (* ---- the statement *)
-Definition args_match (mem : memory) (ks : list argkind) (args : list N) : Prop := args_ok mem ks args.
-
 Theorem printf_format_named : forall (mem : memory) (s : list byte) (args cache : list N) (ks : list argkind),
-  (9 <= length cache)%nat -> named_args s = Some ks -> args_ok mem ks args ->
+  (9 <= length cache)%nat -> named_args s = Some ks -> args_ok mem 0%N ks args ->
   let r := run_printf mem s args cache in
   match snd r with
   | Ok _ => va_pops (ps_vs (fst r)) = map kind_va ks
@@ -1083,7 +1218,7 @@ Proof.
   assert (Hinv : inv mem (mk_ps [] (mk_vs args [] cache 0)) []).
   { unfold inv. cbn [ps_vs arg_list num_args length]. split; [assumption|]. split; [reflexivity|]. split; [lia|]. intros i Hi. lia. }
   pose proof (format_sim s mem (S (length s)) 0 false (mk_ps [] (mk_vs args [] cache 0)) [] ltac:(lia) ltac:(lia) Hinv) as H.
-  unfold sfx in H. cbn [skipn] in H. rewrite Hn in H. destruct (H Hargs) as [ckf Hsim].
+  unfold sfx in H. cbn [skipn] in H. rewrite Hn in H. destruct (H 0%N Hargs) as [ckf Hsim].
   destruct (format_loop s (agent mem) (S (length s)) 0 false (mk_ps [] (mk_vs args [] cache 0))) as [st' [u|w|w|]];
     cbn [osim fst snd] in *; try contradiction.
   - destruct Hsim as [_ [Hlog _]]. exact Hlog.
